@@ -11,6 +11,7 @@ BINARY = ["add", "sub", "mul", "truediv", "floordiv", "mod", "divmod", "pow", "l
           "and", "or", "xor", "lt", "le", "gt", "ge", "eq", "ne"]
 UNARY = ["neg", "pos", "abs", "invert", "check_zero", "check_nonzero", "check_positive", "copy", "deepcopy"]
 TERNARY = ["ite", "if_else", "lc_if_else"]
+PROTOCOL = ["int_of", "round_of", "floor_of", "ceil_of", "trunc_of", "index_of"]
 CMP = {"lt": o.lt, "le": o.le, "gt": o.gt, "ge": o.ge, "eq": o.eq, "ne": o.ne}
 
 
@@ -81,6 +82,13 @@ def ref(name, vals, ts, cfg):
         if n < 0 or x.bit_length() > n:
             return SKIP
         return ("val", int(x >= 0))
+    if name == "pow3":
+        try:
+            return ("val", pow(int(vals[0]), int(vals[1]), int(vals[2])))
+        except (ValueError, ZeroDivisionError):
+            return RAISES
+    if name in PROTOCOL:
+        return ("val", int(vals[0]))          # int(), round(), floor, ceil, trunc, index of an integer (or bool) is that integer
     if name in TERNARY:
         c, x, y = vals
         if c not in (0, 1):
